@@ -75,7 +75,20 @@ func implC13Load(a []string) string {
 				panic(err)
 			}
 			path := filepath.Join(dir, "Root"+format.Format2Ext(c13Formats[f]))
-			if err := os.WriteFile(path, c13Marshal(dec(msg).Interface(), f), 0o644); err != nil {
+			data := c13Marshal(dec(msg).Interface(), f)
+			if (i+len(msg))%3 == 0 {
+				// the patch file is published as a symbolic link (mounted config volumes): still a readable file
+				real := filepath.Join(dir, "..data", filepath.Base(path))
+				if err := os.MkdirAll(filepath.Dir(real), 0o755); err != nil {
+					panic(err)
+				}
+				if err := os.WriteFile(real, data, 0o644); err != nil {
+					panic(err)
+				}
+				if err := os.Symlink(filepath.Join("..data", filepath.Base(path)), path); err != nil {
+					panic(err)
+				}
+			} else if err := os.WriteFile(path, data, 0o644); err != nil {
 				panic(err)
 			}
 			dirs = append(dirs, dir)
